@@ -8,21 +8,23 @@ See Also:
 
 from __future__ import annotations
 
+import binascii
+from base64 import b64encode, b64decode
+
 __all__ = ['modutf7_encode', 'modutf7_decode']
 
 
 def _modified_b64encode(src: str) -> bytes:
-    # Inspired by Twisted Python's implementation:
-    #   https://twistedmatrix.com/trac/browser/trunk/LICENSE
-    src_utf7 = src.encode('utf-7')
-    return src_utf7[1:-1].replace(b'/', b',')
+    src_utf16 = src.encode('utf-16-be')
+    return b64encode(src_utf16).rstrip(b'=').replace(b'/', b',')
 
 
 def _modified_b64decode(src: bytes) -> str:
-    # Inspired by Twisted Python's implementation:
-    #   https://twistedmatrix.com/trac/browser/trunk/LICENSE
-    src_utf7 = b'+%b-' % src.replace(b',', b'/')
-    return src_utf7.decode('utf-7')
+    src_b64 = src.replace(b',', b'/') + b'=' * (-len(src) % 4)
+    try:
+        return b64decode(src_b64, validate=True).decode('utf-16-be')
+    except binascii.Error as exc:
+        raise UnicodeError(str(exc)) from exc
 
 
 def modutf7_encode(data: str) -> bytes:
@@ -51,7 +53,11 @@ def modutf7_encode(data: str) -> bytes:
                 encoded = _modified_b64encode(to_encode)
                 ret.append(0x26)
                 ret.extend(encoded)
-                ret.extend((0x2d, charpoint))
+                ret.append(0x2d)
+                if charpoint == 0x26:
+                    ret.extend(b'&-')
+                else:
+                    ret.append(charpoint)
                 is_usascii = True
     if not is_usascii:
         to_encode = data[encode_start:]
